@@ -204,27 +204,38 @@ def hMbCbEv (args : List String) (_ : Option String) : Option Out := do
   let v := if !Spec.C10.noRepeat evs then "FAIL C10.repeat" else if !wf then "FAIL C10.range" else "ok"
   some { model, verdict := v }
 
+/-- the infos `n` members with EQUAL join times derive in the model, member `i` iterating the
+    index map in its own order (even members front to back, odd members back to front) -/
+def tieInfos (n : Nat) : List (Nat × Nat) :=
+  let live : List Entry := (List.range n).map fun i => (i, 42)
+  (List.range n).map fun i => (rankNumbering (if i % 2 = 0 then live else live.reverse) i).getD (0, 0)
+
+/-- first pair that occurs twice -/
+def firstCollision : List (Nat × Nat) → Option (Nat × Nat)
+  | [] => none
+  | a :: r => if r.contains a then some a else firstCollision r
+
 /-- `mb-cb-tie n`: `n` members, then all join times in the index forced equal.
-    The model admits both outcomes (`rank_numbering_tie_refuted`); the real
-    observation `tied n distinct` | `tied n same k/n` is echoed when it is one
-    of them, and classified: two members holding the same number = finding F8 -/
+    The model is the code after commit 23681a3 (`monitor` breaks ties by instance id;
+    `Props/C10 rank_numbering` holds without the distinct-join-times hypothesis): evaluated on
+    `n` tied entries read in different iteration orders it numbers the members consistently, so
+    the expected observation is `tied n distinct`.  The real observation `tied n same k/n` – two
+    members holding the same number in two consecutive polls – is finding F8 (listed as fixed)
+    having returned: a plain failure `C10.tie-inconsistent`, not a known finding. -/
 def hMbCbTie (args : List String) (real : Option String) : Option Out := do
   let [n] := args | none
   let n ← n.toNat?
-  let dflt := s!"tied {n} distinct"
+  let model := match firstCollision (tieInfos n) with
+    | none => s!"tied {n} distinct"
+    | some c => s!"tied {n} same {showInfo c}"
   match real with
-  | none => some { model := dflt }
+  | none => some { model }
   | some r =>
     match toks r with
     | ["tied", n', "distinct"] =>
-      some { model := if n'.toNat? = some n then r else dflt, verdict := "ok" }
-    | ["tied", n', "same", kt] =>
-      let okk : Bool := match slashNat? kt with
-        | some (k, t) => decide (1 ≤ k ∧ k ≤ n ∧ t = n ∧ 2 ≤ n)
-        | none => false
-      some { model := if n'.toNat? = some n && okk then r else dflt,
-             verdict := "KF F8 equal join times number inconsistently" }
-    | _ => some { model := dflt, verdict := "FAIL C10.unparsable" }
+      some { model, verdict := if n'.toNat? = some n then "ok" else "FAIL C10.unparsable" }
+    | ["tied", _, "same", _] => some { model, verdict := "FAIL C10.tie-inconsistent" }
+    | _ => some { model, verdict := "FAIL C10.unparsable" }
 
 /-- `mb-cb-race` (opt-in replay, child process): member 1 converged; instance 3
     has written its index entry but not yet its document while instance 2 joins
